@@ -313,6 +313,7 @@ func famEval() {
 		gc.Failing, gc.FailVar, gc.Wrong = true, true, true
 	case "C02":
 		gc.Failing = true // failing operators only; every variable is bound
+		gc.Foreign, foreignConsts = true, true
 	case "C03":
 		gc.Failing = true
 	case "C10":
@@ -376,6 +377,20 @@ func famEval() {
 			trees = append(trees, op("eq", op("and", fan("&&", "z", ab[0]), fan("and", "x", ab[1]), vr("y")), vr("y")))
 		}
 	}
+	if prop == "C02" {
+		// a ConstantMap constant whose Go type is not an engine value type: comparisons answer (never
+		// equal to an int64), so folding them must give the answer the run-time comparison gives
+		ki := func() *Tree { return &Tree{K: "c", V: M{"t": "x", "v": "int"}, Kids: []*Tree{}, Name: "KI"} }
+		i3 := func() *Tree { return cst(int64(3)) }
+		trees = append(trees,
+			op("=", ki(), i3()), op("!=", ki(), i3()), op("eq", ki(), ki()), op("ne", named("K", int64(3)), ki()),
+			op("if", op("==", ki(), i3()), cst(int64(1)), cst(int64(2))),
+			op("and", vr("x"), op("!=", ki(), i3())),
+			op("or", op("<", vr("n"), cst(int64(0))), op("eq", ki(), i3(), i3())),
+			op("+", vr("n"), op("if", op("=", ki(), named("K", int64(3))), cst(int64(1)), cst(int64(2)))),
+			op("not", op("=", i3(), ki())), op("f", op("=", ki(), i3()), vr("y")),
+			op("and", op("ne", ki(), i3()), op("or", vr("y"), op("eq", ki(), i3()))))
+	}
 	seen := map[string]bool{}
 	id := *fIDBase - 1
 	for _, t := range trees {
@@ -385,7 +400,7 @@ func famEval() {
 		}
 		seen[src] = true
 		id++
-		rec := M{"fam": "eval", "for": prop, "id": id, "src": src, "tree": t, "illtyped": illTyped[t]}
+		rec := M{"fam": "eval", "for": prop, "id": id, "src": src, "tree": t, "illtyped": illTyped[t], "foreign": strings.Contains(src, "KI")}
 		// bindings
 		var envs []Env
 		if id%3 == 0 {
